@@ -143,6 +143,8 @@ def frame_cases():
         ("basis/construct", [m, e], lambda: fem.Basis(m, e)),
         ("basis/interpolate", [basis, y], lambda: basis.interpolate(y)),
         ("basis/project", [basis], lambda: basis.project(lambda x: x[0])),
+        ("basis/project-elements", [basis, y], lambda: basis.project(basis.interpolate(y), elements=np.array([0, 1]))),
+        ("fbasis/project-facets", [fbasis, y], lambda: fbasis.project(fbasis.interpolate(y), facets=m.boundary_facets()[:2])),
         ("basis/probes", [basis, X], lambda: basis.probes(X)),
         ("basis/interpolator", [basis, y, X], lambda: basis.interpolator(y)(X)),
         ("basis/get_dofs", [basis], lambda: basis.get_dofs("left").all()),
@@ -402,8 +404,57 @@ def run_history(payload):
     return cases, failures, samples
 
 
+def run_moved(payload):
+    """HISTORY for geometry-only transformations: the result of translating / scaling / mirroring / morphing / smoothing a mesh that HAS BEEN USED (mapping,
+    finder and connectivity cached) equals, in everything computed from it, the result of the same call on a never-used equal mesh; operand and result share
+    no mapping"""
+    import skfem as fem
+    fails, cases = [], 0
+    mk = {"tri": (lambda: fem.MeshTri.init_sqsymmetric(), fem.ElementTriP1), "quad": (lambda: fem.MeshQuad().refined(1), fem.ElementQuad1),
+          "tet": (lambda: fem.MeshTet(), fem.ElementTetP1), "hex": (lambda: fem.MeshHex(), fem.ElementHex1), "line": (lambda: fem.MeshLine(np.linspace(0, 1, 4)), fem.ElementLineP1)}
+    for name, (make, E) in mk.items():
+        d = make().p.shape[0]
+        moves = {"translated": lambda q: q.translated((1.5,) * d), "scaled": lambda q: q.scaled((2.,) + (.5,) * (d - 1))}
+        if d > 1:
+            moves["mirrored"] = lambda q: q.mirrored((1.,) + (0.,) * (d - 1), (.25,) * d)
+            moves["morphed"] = lambda q: q.morphed(lambda p: p[0] + .1 * p[1])
+        if name in ("tri", "tet"):
+            moves["smoothed"] = lambda q: q.smoothed()
+        for mname, mv in moves.items():
+            cases += 1
+            used, fresh = make(), make()
+            fem.CellBasis(used, E())
+            used.mapping() if hasattr(used, "mapping") else None
+            try:
+                used.element_finder()
+            except Exception:
+                pass
+            used.boundary_facets()
+            try:
+                a, b = mv(used), mv(fresh)
+            except Exception as ex:
+                fails.append(dict(input="%s.%s()" % (name, mname), observed="raised %s: %s" % (type(ex).__name__, ex)))
+                continue
+            ba, bb = fem.CellBasis(a, E()), fem.CellBasis(b, E())
+            x = lambda w: w.x[0]
+            va, vb = fem.Functional(x).assemble(ba), fem.Functional(x).assemble(bb)
+            same = np.array_equal(ba.doflocs, bb.doflocs) and np.array_equal(ba.dx, bb.dx) and va == vb and np.array_equal(a.p, b.p)
+            if not same:
+                fails.append(dict(input="%s mesh: use it (basis, mapping, finder), then .%s()" % (name, mname),
+                                  observed="HISTORY: on the moved mesh int x = %r, on the same call applied to a never-used equal mesh %r (doflocs equal: %s, dx equal: %s)"
+                                           % (float(va), float(vb), np.array_equal(ba.doflocs, bb.doflocs), np.array_equal(ba.dx, bb.dx))))
+            if getattr(ba.mapping, "mesh", None) is used:
+                fails.append(dict(input="%s mesh .%s()" % (name, mname), observed="ALIAS: the mapping of the result refers to the mesh it was computed from"))
+    for f in fails:
+        f["replay"] = dict(kind="state_case", what="moved", seed=0, tier="quick")
+    return cases, fails, ["moved/tri/translated"]
+
+
 def run(payload):
     what = payload.get("what")
+    if what == "moved":
+        c, f, s_ = run_moved(payload)
+        return dict(cases=c, failures=f[:20], samples=s_, bound="5 mesh classes x {translated, scaled, mirrored, morphed, smoothed} after use vs never-used equal meshes")
     c1 = c2 = 0
     f1 = f2 = []
     s1 = s2 = []
@@ -411,6 +462,8 @@ def run(payload):
         c1, f1, s1 = run_frames(payload)
     if what in (None, "history"):
         c2, f2, s2 = run_history(payload)
+        c3, f3, s3 = run_moved(payload)
+        c2, f2 = c2 + c3, f3 + f2
     return dict(cases=c1 + c2, failures=(f1 + f2)[:20], samples=(s1 + s2)[:3],
                 bound="FRAME: %d operations with checksummed operands; HISTORY: %s seeded random sequences of 12 operations on long-lived objects "
                       "(7 meshes, 12 element kinds incl. ElementGlobal/LinePp/QuadP, mappings with adversarial same-bytes arguments, 5 reused solver objects) "
